@@ -172,7 +172,13 @@ def fam_length_T0T1(R, n):
             continue
         p, segs, full, part, (k0, t0), (k1, t1) = val
         tot = sum((s.l for s in segs[1:]), segs[0].l)
-        R.ob('n%d.length()=sum' % n, ctx, req(full, tot))
+
+        def cex0(m):
+            ls = [mval(m, s.l) for s in segs]
+            loops = [bool(z3.is_true(m.eval(ceq(s.start, s.end), model_completion=True))) for s in segs]
+            return {'cls': 'Path.length() is not the sum of the segment lengths', 'inputs': {'lengths': ls, 'start==end': loops},
+                    'script': REPLAY_SUM % (ls, loops)}
+        R.ob('n%d.length()=sum' % n, ctx, req(full, tot), cex=cex0, robust=[segs[i].l.e >= 1 for i in range(n)] + [segs[i].l.e <= 9 for i in range(n)])
         if n == 1:
             want = segs[0].length(t0=symr('T0'), t1=symr('T1'))
         elif k0 == k1:
@@ -187,6 +193,28 @@ def fam_length_T0T1(R, n):
         robust = [segs[i].l.e >= 1 for i in range(n)] + [segs[i].l.e <= 9 for i in range(n)]
         R.ob('n%d.length(T0,T1)' % n, ctx, req(part, want), cex=cex, robust=robust)
         R.sample({'n': n, 'k0': k0, 'k1': k1})
+
+
+REPLAY_SUM = '''
+ls = %r; loops = %r
+# segments of (about) the given lengths; where the model has start == end the segment is a closed Bezier loop
+segs = []; x = 0.0
+for i, (l, lp) in enumerate(zip(ls, loops)):
+    if lp:
+        s0 = CubicBezier(complex(x, 3*i), complex(x + 4, 3*i + 4), complex(x + 4, 3*i - 4), complex(x, 3*i))
+        k = max(l, 0.5) / s0.length()
+        segs.append(CubicBezier(s0.start, s0.start + k * (s0.control1 - s0.start), s0.start + k * (s0.control2 - s0.start), s0.start))
+    else:
+        segs.append(Line(complex(x, 3*i), complex(x + max(l, 0.5), 3*i)))
+    x += 11
+for variant in (segs, segs + [QuadraticBezier(complex(x, 0), complex(x + 2, 5), complex(x, 0))]):
+    p = Path(*variant)
+    want = sum(s.length() for s in variant)
+    got = p.length()
+    if abs(got - want) > 1e-7 * (1 + want): REPRODUCED('Path.length() = %%r but its segments have lengths %%r (sum %%r): %%r' %% (got, [s.length() for s in variant], want, p))
+    a, b = p.length(0, 0.4), p.length(0.4, 1)
+    if abs(a + b - want) > 1e-6 * (1 + want): REPRODUCED('Path.length(0,.4) + length(.4,1) = %%r, sum of segment lengths %%r: %%r' %% (a + b, want, p))
+'''
 
 
 REPLAY_LEN = '''
